@@ -5636,6 +5636,38 @@ func ruleMatchingVisitedFreshPerRoot(c *Ctx, rule string) {
 		}
 	}
 	c.floor(rule, "outer calls of findAugmentingPath", n, 1)
+	// the lane count is the number of nodes minus the number of successful searches: every decrement of the counter sits
+	// directly under the result of a search from a root (counting matched entries of the adjacency lists afterwards counts
+	// a double edge - two arguments fed by one provider - twice)
+	nDec := 0
+	for _, b := range fn.Blocks {
+		for _, in := range b.Instrs {
+			bo, ok := in.(*ssa.BinOp)
+			if !ok || bo.Op != token.SUB {
+				continue
+			}
+			if k, isC := constInt(bo.Y); !isC || k != 1 {
+				continue
+			}
+			if _, isPhi := bo.X.(*ssa.Phi); !isPhi {
+				continue
+			}
+			nDec++
+			okDec, why := false, "the decrement is not under the result of a search"
+			for _, iff := range controllingIfs(bo) {
+				if call, isCall := iff.Cond.(*ssa.Call); isCall && call.Common().StaticCallee() == aug && (iff.Block().Succs[0] == b || iff.Block().Succs[0].Dominates(b)) {
+					okDec, why = true, "one decrement per successful search"
+				} else {
+					s := newSym(L, map[string]bool{})
+					s.maxD = 0
+					why = "the decrement is decided by " + strings.Join(s.eval(iff.Cond), "|")
+				}
+				break
+			}
+			c.check(okDec, rule, fnName(fn)+":one-lane-less-per-successful-search", L.pos(bo.Pos()), "the lane count is the number of nodes minus the number of successful augmenting-path searches", why)
+		}
+	}
+	c.floor(rule, "decrements of the lane counter in findMaximumAntichainSize", nDec, 1)
 }
 
 // ruleContextInjectedOnEveryPath: when a scheduled provider is Async, injectContextArg leaves the injector with a context
@@ -6266,4 +6298,72 @@ func ruleDestinationNotInspected(c *Ctx, rule string) {
 		}
 	}
 	c.floor(rule, "file-system reads in internal/llmsetup", n, 1)
+}
+
+// ruleEmptyPoolForAsyncOnly: findOptimalPool opens a new lane (returns the index of an empty pool) only for a provider that
+// is itself Async - the test in front of the scan for an empty pool is the node's IsAsync flag and nothing else. A
+// synchronous provider whose inputs sit in several lanes stays behind one of them; given a lane of its own it turns the
+// single caller lane the rest of the scheduling assumes into two sync-headed lanes.
+func ruleEmptyPoolForAsyncOnly(c *Ctx, rule string) {
+	L := c.L
+	fn := genFn(c, rule, "(*Graph).findOptimalPool")
+	if fn == nil {
+		return
+	}
+	n := 0
+	for _, f := range family(L, fn) {
+		for _, r := range returnsOf(f) {
+			if len(r.Results) != 1 || !isRangeIndex(r.Results[0]) {
+				continue
+			}
+			// under a test that the pool at that index is empty
+			emptyTest := false
+			var asyncIfs []*ssa.If
+			for _, iff := range controllingIfs(r) {
+				s := newSym(L, map[string]bool{})
+				s.maxD = 0
+				t := strings.Join(s.eval(iff.Cond), "|")
+				if strings.HasPrefix(t, "bin==(builtin len(index(param:") && strings.HasSuffix(t, ", 0)") {
+					emptyTest = true
+					continue
+				}
+				if strings.Contains(t, "ProviderSpec.IsAsync(") || strings.Contains(t, "true|") || strings.Contains(t, "|true") {
+					asyncIfs = append(asyncIfs, iff)
+				}
+			}
+			if !emptyTest {
+				continue
+			}
+			n++
+			ok, why := false, "no IsAsync test in front of the scan for an empty pool"
+			for _, iff := range asyncIfs {
+				u, isU := iff.Cond.(*ssa.UnOp)
+				if isU && u.Op == token.MUL {
+					if fa, isF := u.X.(*ssa.FieldAddr); isF && fieldKey(fa) == "internal/kessoku.ProviderSpec.IsAsync" && (iff.Block().Succs[0] == r.Block() || iff.Block().Succs[0].Dominates(r.Block())) {
+						// and the scan is entered from that test only (`IsAsync || something` enters it from a second block)
+						entry := iff.Block().Succs[0]
+						only := true
+						for _, pr := range entry.Preds {
+							if pr != iff.Block() && !entry.Dominates(pr) {
+								only = false
+							}
+						}
+						if only {
+							ok, why = true, "guarded by the node's IsAsync flag alone"
+						} else {
+							ok, why = false, "the scan for an empty pool is also entered when the IsAsync test fails (a disjunction)"
+							break
+						}
+						continue
+					}
+				}
+				s := newSym(L, map[string]bool{})
+				s.maxD = 0
+				ok, why = false, "the scan for an empty pool is entered under "+strings.Join(s.eval(iff.Cond), "|")
+				break
+			}
+			c.check(ok, rule, fnName(fn)+":new-lane-for-async-only", L.pos(r.Pos()), "an empty pool is handed out only to a provider that is itself Async", why)
+		}
+	}
+	c.floor(rule, "returns of an empty pool's index in findOptimalPool", n, 1)
 }
